@@ -146,6 +146,29 @@ OrderCases == [kind : {"order"}, t : 1..Len(OrderTexts), h : Histories]
 OrderOut(cc) == LET x == OrderTexts[cc.t] IN
                 [toks |-> Spelling(CallTerm(x.f, x.args, NoNz(Len(x.args)))), run |-> RefRun(cc.h, Per(x.f, x.args))]
 
+\* ------------------------------------------------------------------ contexts (part "ctx")
+(* calls of scalar built-ins on numbers: every (function, point) of a small grid whose outcome is an error (poles,
+   real-only functions off the real line, overflow), calls with several / too many / too few arguments and unknown
+   names, plus in-domain controls; bare and wrapped in arctan(...) (a pole that no longer raises yields a finite value
+   there).  out.v is the verdict under every context; the adapter sends the text down every road. *)
+CtxPts == {GZ, GI(1), GI(-1), II, A!GNeg(II), GQ(1, 2, 0, 1), GI(2), GI(-2), GQ(1, 2, 1, 1), GI(711), GI(-1000), <<Zero, FromInt(1000)>>}
+CtxControls == {"cos", "exp", "arctan", "floor", "sqrt"}
+CtxMulti == {[f |-> "arctan2", args |-> <<Sc(GZ), Sc(GZ)>>], [f |-> "arctan2", args |-> <<Sc(GI(1)), Sc(II)>>],
+             [f |-> "arctan2", args |-> <<Sc(GI(1)), Sc(GI(1))>>], [f |-> "arctan2", args |-> <<Sc(GI(1))>>],
+             [f |-> "min", args |-> <<Sc(II), Sc(GI(1))>>], [f |-> "max", args |-> <<Sc(GI(1)), Sc(GQ(2, 1, 1, 1))>>],
+             [f |-> "min", args |-> <<Sc(GI(1)), Sc(GI(2))>>], [f |-> "max", args |-> <<Sc(GI(3)), Sc(GI(2)), Sc(GI(1))>>],
+             [f |-> "min", args |-> <<Sc(GI(1))>>], [f |-> "sin", args |-> <<Sc(GI(1)), Sc(GI(2))>>],
+             [f |-> "kronecker", args |-> <<Sc(GI(1))>>], [f |-> "kronecker", args |-> <<Sc(GI(1)), Sc(GI(1))>>],
+             [f |-> "sinc", args |-> <<Sc(GI(1))>>], [f |-> "Sin", args |-> <<Sc(GI(1))>>],
+             [f |-> "floor", args |-> <<Sc(GI(1)), Sc(GI(1))>>], [f |-> "ln", args |-> <<Sc(GZ), Sc(GI(1))>>]}
+CtxCalls(f) == IF f = "multi" THEN CtxMulti
+               ELSE {[f |-> f, args |-> <<Sc(z)>>] : z \in {p \in CtxPts : Allowed(Outcome("formula", f, <<Sc(p)>>)) = "err"
+                                                                          \/ (f \in CtxControls /\ p = GQ(1, 2, 0, 1))}}
+CtxCases(f) == {[kind |-> "ctx", f |-> x.f, args |-> x.args, wrap |-> w] : x \in CtxCalls(f), w \in {"none", "arctan"}}
+CtxTerm(cc) == LET t == CallTerm(cc.f, cc.args, NoNz(Len(cc.args))) IN IF cc.wrap = "none" THEN t ELSE F1(cc.wrap, t)
+CtxOut(cc) == [toks |-> Spelling(CtxTerm(cc)), v |-> [x \in Contexts |-> CtxVerdict(x, cc.f, cc.args)],
+               onearg |-> Len(cc.args) = 1]
+
 \* ------------------------------------------------------------------ two-level enumeration
 Seeds == CASE Part = "sig" -> {[kind |-> "seed", f |-> f] : f \in SigNames}
            [] Part = "unary" -> {[kind |-> "seed", f |-> f] : f \in UnaryFns}
@@ -155,6 +178,7 @@ Seeds == CASE Part = "sig" -> {[kind |-> "seed", f |-> f] : f \in SigNames}
                                  \cup {[kind |-> "seed", f |-> f, fam |-> "tensor"] : f \in {"sin", "sqrt", "floor", "min", "kronecker"}}
            [] Part = "tmpl" -> {[kind |-> "tmpl", k |-> k] : k \in 1..Len(Identities)} \cup {[kind |-> "markers", k |-> 0]}
            [] Part = "ident" -> {[kind |-> "seed", k |-> k] : k \in 1..Len(Identities)} \cup {[kind |-> "seedconst"]}
+           [] Part = "ctx" -> {[kind |-> "seedctx", f |-> f] : f \in ScalarFns \cup {"multi"}}
            [] Part \in {"order", "order_flaw"} -> {[kind |-> "seedorder", t |-> t] : t \in 1..Len(OrderTexts)}
 \* identity templates (holes Z, W left in place) and the markers of the overriding scope, for the drivers of the adapter
 TmplOut(k) == IF k = 0 THEN [markers |-> Markers]
@@ -174,6 +198,8 @@ Next == \/ /\ c.kind = "seed" /\ Part = "sig"
         \/ /\ c.kind = "seedconst"
            /\ c' \in ConstCases
            /\ out' = [toks |-> <<c'.name>>, o |-> [s \in Scopes |-> ConstOutcome(c'.name)]]
+        \/ /\ c.kind = "seedctx"
+           /\ c' \in CtxCases(c.f) /\ out' = CtxOut(c')
         \/ /\ c.kind = "seedorder"
            /\ c' \in {x \in OrderCases : x.t = c.t} /\ out' = OrderOut(c')
 IsCall == c.kind \in {"sig", "unary", "multi", "matrix"}
@@ -247,5 +273,7 @@ LawOrder == c.kind = "order" =>
    /\ LawMemoRefines(c.h, OrderPer, "none") /\ LawMemoRefines(c.h, OrderPer, "scope")
    /\ \A h2 \in SeqsOver(Scopes, 2) : LawHistoryIndependent(c.h, h2, OrderPer)
    /\ out.run = RefRun(c.h, OrderPer)
+LawCtx == c.kind = "ctx" => /\ LawContext(c.f, c.args)
+                            /\ LawRenderParses(CtxTerm(c)) /\ LawOnlyNaturalLiterals(CtxTerm(c))
 LawOrderFlaw == c.kind = "order" => LawMemoRefines(c.h, OrderPer, "text")
 =============================================================================
